@@ -142,6 +142,21 @@ func (c *Ctx) scannerFields(o Obj, hint string, id Sc) {
 	o.F["err"] = scInt(app("sc!err", id.T))
 	c.facts = append(c.facts, tGe(app("sc!n", id.T), "0"))
 	c.facts = append(c.facts, ioErr(app("sc!err", id.T)))
+	// the lines are the ScanLines split of the byte sequence the reader delivers (rd!in / rd!end: the same abstraction
+	// bufio.Reader is specified over), when the reader itself does not fail (specs/00base.spec, lnN/lnS/lnT/lnE)
+	c.declareFun("rd!in", []string{SInt}, arrSort(SInt, SInt))
+	c.declareFun("rd!end", []string{SInt}, SInt)
+	c.declareFun("rd!fault", []string{SInt}, SBool)
+	for _, f := range []string{"lnN", "lnS", "lnT", "lnE"} {
+		c.used[f] = true
+	}
+	in, end, lines, cnt := app("rd!in", id.T), app("rd!end", id.T), app("sc!lines", id.T), app("sc!n", id.T)
+	nf := tNot(app("rd!fault", id.T))
+	c.facts = append(c.facts, tImp(nf, tAnd(tGe(end, "0"), tEq(cnt, app("lnN", in, end)))))
+	c.facts = append(c.facts, tImp(nf, tForall([][2]string{{"k!l", SInt}}, tImp(tAnd(tLe("0", "k!l"), tLt("k!l", cnt)),
+		tEq(app("slen", tSel(lines, "k!l")), tSub(app("lnE", in, end, "k!l"), app("lnS", in, end, "k!l")))), tSel(lines, "k!l"))))
+	c.facts = append(c.facts, tImp(nf, tForall([][2]string{{"k!l", SInt}, {"j!l", SInt}}, tImp(tAnd(tLe("0", "k!l"), tLt("k!l", cnt), tLe("0", "j!l"), tLt("j!l", app("slen", tSel(lines, "k!l")))),
+		tEq(app("sat", tSel(lines, "k!l"), "j!l"), tSel(in, tAdd(app("lnS", in, end, "k!l"), "j!l")))), app("sat", tSel(lines, "k!l"), "j!l"))))
 }
 
 func (c *Ctx) csvFields(o Obj, hint string, id Sc) {
@@ -802,6 +817,21 @@ func init() {
 						no.F[k] = v
 					}
 					no.F["fault"] = scBool(tFalse)
+					return Tup{}, x.assignBack(recv, no, st1)
+				}
+			}
+		}
+		// a scanner over any other reader, with the limit lifted the same way, can only fail when the reader itself does
+		if o, ok := ov.(Obj); ok && o.F["membacked"] == nil && o.F["id"] != nil && len(vals) == 2 {
+			if mx, ok := vals[1].(Sc); ok {
+				if k, lit := isIntLit(mx.T); lit && k >= 1<<56 {
+					c := x.c
+					c.declareFun("rd!fault", []string{SInt}, SBool)
+					no := Obj{o.Kind, map[string]Val{}}
+					for k, v := range o.F {
+						no.F[k] = v
+					}
+					no.F["fault"] = scBool(tAnd(o.F["fault"].(Sc).T, app("rd!fault", o.F["id"].(Sc).T)))
 					return Tup{}, x.assignBack(recv, no, st1)
 				}
 			}
